@@ -37,10 +37,19 @@ Blank == [k |-> "", user |-> "", service |-> "", method |-> "", cb |-> "fail", s
           mic |-> "good", change |-> FALSE, mechs |-> 1, mech_ok |-> TRUE, tok |-> ""]
 Rq(u, sv, m) == [Blank EXCEPT !.k = "request", !.user = u, !.service = sv, !.method = m]
 
+\* The service and then the user name are looked at before anything else in the request, and user names are
+\* interchangeable: every variant of every method for one user on ssh-connection, representatives otherwise.
+Primary == CHOOSE u \in Users : TRUE
 UserRequests(u, sv) ==
-  IF sv # "ssh-connection"            \* the service is looked at before anything else: three representatives
+  IF sv # "ssh-connection"
   THEN {[Rq(u, sv, "none") EXCEPT !.cb = "ok"], [Rq(u, sv, "password") EXCEPT !.cb = "ok"],
         [Rq(u, sv, "publickey") EXCEPT !.cb = "ok", !.sig = "good"]}
+  ELSE IF u # Primary
+  THEN {[Rq(u, sv, "none") EXCEPT !.cb = "ok"], [Rq(u, sv, "none") EXCEPT !.cb = "fail"],
+        [Rq(u, sv, "password") EXCEPT !.cb = "ok"], [Rq(u, sv, "publickey") EXCEPT !.cb = "ok", !.sig = "good"],
+        [Rq(u, sv, "publickey") EXCEPT !.cb = "ok", !.sig = "absent"],
+        [Rq(u, sv, "keyboard-interactive") EXCEPT !.cb = "query"], [Rq(u, sv, "gssapi-keyex") EXCEPT !.cb = "ok"],
+        Rq(u, sv, "gssapi-with-mic")}
   ELSE {[Rq(u, sv, m) EXCEPT !.cb = c] : m \in {"none", "bogus"}, c \in Results}
   \cup {[Rq(u, sv, "password") EXCEPT !.cb = c] : c \in Results}
   \cup {[Rq(u, sv, "password") EXCEPT !.cb = "ok", !.change = TRUE]}
@@ -54,7 +63,7 @@ Continuations ==
   \cup {[Blank EXCEPT !.k = "gss_mic", !.mic = mc, !.cb = c] : mc \in MicKinds, c \in Results}
 Messages == (UNION {UserRequests(u, sv) : u \in Users, sv \in Services}) \cup Continuations
 \* a small alphabet of attempts that do not end in success, to walk up to the failure cap
-CapMessages == LET u == CHOOSE x \in Users : TRUE   v == CHOOSE x \in Users : x # u   sv == "ssh-connection" IN
+CapMessages == LET u == Primary   v == CHOOSE x \in Users : x # u   sv == "ssh-connection" IN
   {[Rq(u, sv, "none") EXCEPT !.cb = "fail"], [Rq(u, sv, "password") EXCEPT !.cb = "partial"],
    [Rq(u, sv, "password") EXCEPT !.cb = "ok", !.change = TRUE],
    [Rq(u, sv, "publickey") EXCEPT !.cb = "ok", !.sig = "corrupt"], [Rq(u, sv, "publickey") EXCEPT !.cb = "ok", !.sig = "absent"],
@@ -114,7 +123,7 @@ Ctl == [authUser |-> authUser, failCount |-> failCount, authenticated |-> authen
         mode |-> mode, expect |-> expect]
 Ans(s, c, o) == [st |-> s, cbs |-> c, out |-> o]
 Quiet(s) == Ans(s, <<>>, <<>>)
-Die(s, c, o) == Ans([s EXCEPT !.alive = FALSE], c, o)
+Die(s, c, o) == Ans([s EXCEPT !.alive = FALSE, !.authenticated = FALSE], c, o)   \* is_authenticated() = active /\ ...
 
 \* _send_auth_result(username, method, result)  (then _disconnect_no_more_auth at the cap)
 ReplyOf(res) == CASE res = "ok" -> "SUCCESS" [] res = "partial" -> "PARTIAL" [] OTHER -> "FAILURE"
